@@ -7,7 +7,14 @@ id=${1:?property id}
 tier=${2:-${VERIF_TIER:-quick}}
 bin=vmc
 case "$id" in C12|C16) bin=vmcx;; esac
-if ! out=$(./build.sh $bin 2>&1); then
+if [ "$id" = C12 ]; then
+  # vmcx must be (re)generated first: the race build reuses its overlay
+  if ! out=$(./build.sh vmcx 2>&1 && ./build.sh vmcxrace 2>&1); then
+    echo "$out"
+    echo "BUILD FAILED: the checker could not be built against /repo's working tree"
+    exit 2
+  fi
+elif ! out=$(./build.sh $bin 2>&1); then
   echo "$out"
   echo "BUILD FAILED: the checker could not be built against /repo's working tree"
   exit 2
